@@ -607,7 +607,7 @@ func supervise(p Prop, wr *WorkerResult, start time.Time) {
 	tag := fmt.Sprintf("%s/sup-%d-%d", dir, os.Getpid(), wr.Worker)
 	journal, childOut, childErr := tag+".journal", tag+".out", tag+".err"
 	defer func() { os.Remove(journal); os.Remove(childOut); os.Remove(childErr) }()
-	next := 0
+	next := envInt("VERIF_START", 0) // (the driver recycles worker processes and continues the numbering)
 	nontriv := map[string]bool{}
 	for time.Since(start) < budget {
 		os.Remove(childOut)
